@@ -5,6 +5,7 @@ import (
 	"encoding/json"
 	"fmt"
 	"reflect"
+	"sync"
 
 	"github.com/philpearl/plenc/plenccodec"
 
@@ -90,6 +91,39 @@ func c14Case(c *core.Ctx, idx int) {
 			}
 		}
 	}
+	// descriptors are asked for by whoever needs the schema: several goroutines at once, through the
+	// one codec the instance shares, must each get the whole descriptor
+	if idx%4 == 1 {
+		const g, reps = 4, 6
+		var wg sync.WaitGroup
+		diffs := make([]string, g)
+		start := make(chan struct{})
+		for w := 0; w < g; w++ {
+			wg.Add(1)
+			go func(w int) {
+				defer wg.Done()
+				<-start
+				for k := 0; k < reps && diffs[w] == ""; k++ {
+					var dw plenccodec.Descriptor
+					if pn := core.Guard(func() { dw = codec.Descriptor() }); pn != "" {
+						diffs[w] = "panic: " + pn
+						return
+					}
+					diffs[w] = model.DescDiff(want, realDesc{&dw}, "$", true)
+				}
+			}(w)
+		}
+		close(start)
+		wg.Wait()
+		rec.Eval(g * reps)
+		rec.Count("concurrent_descriptor_calls", g*reps)
+		for w, diff := range diffs {
+			if diff != "" {
+				rec.Violation("descriptor", fmt.Sprintf("Descriptor() called by %d goroutines at once: goroutine %d got a descriptor that does not mirror the type [%s]: %s\n  type %s", g, w, tc.name, diff, typeString(tc.typ)), map[string]any{"type": typeString(tc.typ)})
+				return
+			}
+		}
+	}
 	n := countDesc(&d)
 	rec.Count("descriptor_nodes", n)
 	if n > 2 {
@@ -134,6 +168,10 @@ func renderJSON(d *plenccodec.Descriptor, data []byte) (out []byte, err error, p
 	})
 	return
 }
+
+// c13Reused is one outputter per process, Reset before every walk: what it renders must not depend
+// on the documents it rendered before
+var c13Reused plenccodec.JSONOutput
 
 func c13Case(c *core.Ctx, idx int) {
 	rec := c.Rec
@@ -218,6 +256,20 @@ func c13Case(c *core.Ctx, idx int) {
 				rec.Violation("descriptor-restored", fmt.Sprintf("the Descriptor restored through %s renders differently (%v %s) %s\n  direct   %q\n  restored %q", name, err2, pn2, desc(), trunc1(string(out)), trunc1(string(out2))), caseExtra(tc, v, data))
 				return
 			}
+		}
+		var out3 []byte
+		var err3 error
+		pn3 := core.Guard(func() {
+			c13Reused.Reset()
+			if err3 = d.Read(&c13Reused, data); err3 == nil {
+				out3 = append([]byte(nil), c13Reused.Done()...)
+			}
+		})
+		rec.Eval(1)
+		if err3 != nil || pn3 != "" || !bytes.Equal(out, out3) {
+			rec.Violation("outputter-reuse", fmt.Sprintf("a JSONOutput that rendered other documents before (Reset in between) renders this walk differently from a new one (%v %s) %s\n  new    %q\n  reused %q", err3, pn3, desc(), trunc1(string(out)), trunc1(string(out3))), historyExtra(c, tc, v, data))
+			c13Reused = plenccodec.JSONOutput{}
+			return
 		}
 		if rec.WantSample() && len(out) > 20 && len(out) < 200 {
 			rec.Sample(map[string]any{"type": typeString(tc.typ), "value": model.Show(v), "bytes": fmt.Sprintf("%x", data), "json": string(out)})
